@@ -419,6 +419,83 @@ def rule_e8(repo):
                 bad[0][0], bad[0][1], bad[0][0]), '%s:%d' % ('integral/interval.py', bad[0][1] if bad else chain.lineno))
     return res
 
+def rule_e9(repo):
+    """Where an end of an interval is a singular point, the calculator takes the value there as a one-sided limit: the end
+    plus or minus a term 1/x that vanishes as x grows.  Which sign is not a matter of taste: the point has to move *into*
+    the interval - the upper end is approached from below (`upper - 1/x`), the lower end from above (`lower + 1/x`).
+    From outside, [atan(1/x)] for x from -1 to 0 takes the limit from the right at 0 and comes out as 3 pi / 4 instead of
+    -pi / 4.  Every place that adds such a term to an end of an interval is read: the end is named by the expression
+    (`e.upper`, a local or a helper's parameter that stands for it) or by the position in `Integral(var, lower, upper, ..)`."""
+    from ..flow import flow_of
+    res = RuleResult('C19.E9', 'a singular end of an interval is approached from inside: upper - 1/x, lower + 1/x', floor=8)
+
+    def vanishing(e):
+        return isinstance(e, ast.BinOp) and isinstance(e.op, ast.Div) and isinstance(e.left, ast.Constant) and e.left.value == 1 and isinstance(e.right, ast.Name)
+
+    def end_of_path(e):
+        p_ = path_of(e) or ''
+        last = p_.split('.')[-1]
+        return last if last in ('upper', 'lower') and '.' in p_ else None
+    for m in repo.source_modules():
+        if not m.rel.startswith('integral/') or '/tests/' in m.rel:
+            continue
+        for f in m.all_funcs:
+            sites = [b for b in ast.walk(f.node) if isinstance(b, ast.BinOp) and isinstance(b.op, (ast.Add, ast.Sub)) and (vanishing(b.left) or vanishing(b.right))]
+            own = {id(x) for g in f.nested.values() for x in ast.walk(g.node)} if getattr(f, 'nested', None) else set()
+            sites = [b for b in sites if id(b) not in own]
+            if not sites:
+                continue
+            flow = flow_of(f.node)
+            parents = {}
+            for x in ast.walk(f.node):
+                for ch in ast.iter_child_nodes(x):
+                    parents[id(ch)] = x
+            for b in sites:
+                if isinstance(b.op, ast.Sub) and vanishing(b.left):
+                    continue                     # 1/x - a: not an approach to a
+                other = b.left if vanishing(b.right) else b.right
+                sign = 'minus' if isinstance(b.op, ast.Sub) else 'plus'
+                ends = set()
+                e1 = end_of_path(flow.inline(other))
+                if e1 is None and isinstance(other, ast.Name):
+                    # a local that is assigned more than once (a = e.upper ... a = e.lower): what it holds at this statement
+                    from ..cfg import cfg_of
+                    cfg = cfg_of(f.node)
+                    at = cfg.node_for(b)
+                    e1 = end_of_path(cfg.value_at(at, other)) if at is not None else None
+                if e1:
+                    ends.add(e1)
+                if not ends:
+                    # position in Integral(var, lower, upper, body), possibly through normalize(..)
+                    x = b
+                    while id(x) in parents and isinstance(parents[id(x)], ast.Call) and (call_name(parents[id(x)]) or '').split('.')[-1] in ('normalize', 'normalize_constant'):
+                        x = parents[id(x)]
+                    par = parents.get(id(x))
+                    if isinstance(par, ast.Call) and (call_name(par) or '').split('.')[-1] == 'Integral' and len(par.args) >= 4:
+                        idx = [i for i, a in enumerate(par.args) if a is x]
+                        if idx and idx[0] in (1, 2):
+                            ends.add('lower' if idx[0] == 1 else 'upper')
+                if not ends and isinstance(other, ast.Name) and f.parent is not None and other.id in f.params():
+                    # a helper that takes the end as its parameter: the ends it is called with
+                    i = f.params().index(other.id)
+                    outer = f.parent
+                    oflow = flow_of(outer.node)
+                    for c in ast.walk(outer.node):
+                        if isinstance(c, ast.Call) and is_name(c.func, f.name) and len(c.args) > i:
+                            e2 = end_of_path(oflow.inline(c.args[i]))
+                            if e2:
+                                ends.add(e2)
+                if not ends:
+                    continue
+                want = {'upper': 'minus', 'lower': 'plus'}
+                wrong = sorted(e_ for e_ in ends if want[e_] != sign)
+                res.add('%s :: %s :: approach(%s)@%d' % (m.rel, f.qualname, src(b, 30), b.lineno - f.node.lineno), not wrong,
+                        '%s end, 1/x %s' % ('/'.join(sorted(ends)), 'subtracted' if sign == 'minus' else 'added') if not wrong else
+                        'line %d: `%s` stands for the %s end of the interval and the vanishing term is %s: the end is approached from outside the interval, '
+                        'where the integrand need not even be defined ([atan(1/x)] from -1 to 0 becomes 3 pi / 4)' % (
+                            b.lineno, src(b, 40), wrong[0], 'added' if sign == 'plus' else 'subtracted'), '%s:%d' % (m.rel, b.lineno))
+    return res
+
 
 def rules(repo):
-    return [rule_e1(repo), rule_e2(repo), rule_e3(repo), rule_e4(repo), rule_e5(repo), rule_e6(repo), rule_e7(repo), rule_e8(repo)]
+    return [rule_e1(repo), rule_e2(repo), rule_e3(repo), rule_e4(repo), rule_e5(repo), rule_e6(repo), rule_e7(repo), rule_e8(repo), rule_e9(repo)]
